@@ -267,6 +267,25 @@ pub fn c07(sk: &Skeleton) -> Leaf {
             }
         }
     }
+    // a year report is computed from the full history but needs only ITS OWN year's exemption: with the exemption of another
+    // year that has disposals removed from the table, the reports of the remaining years are unchanged
+    let dys = disposal_years(&lines);
+    if dys.len() >= 2 {
+        let omitted = dys[0];
+        let mut cfg2 = cfg.clone();
+        cfg2.exemptions.remove(&(omitted as u16));
+        for &y in dys.iter().skip(1) {
+            let full = cgt_core::calculator::calculate(&txs, Some(y), None, &cfg);
+            let part = cgt_core::calculator::calculate(&txs, Some(y), None, &cfg2);
+            match (full, part) {
+                (Ok(a), Ok(b)) => report_equal_slice(&mut leaf, &format!("C07.without-exemption-of-{omitted}"), &a, &b, y),
+                (Ok(_), Err(e)) => {
+                    leaf.ob_bool(&format!("C07.year-{y}-report-needs-only-its-own-exemption"), false, &format!("year {y} refused because {omitted} has no exemption: {e}"));
+                }
+                _ => {}
+            }
+        }
+    }
     // a filter year outside the exemption table is an error (C04), never a silent zero
     let unknown = hi + 7;
     if (1900..=2100).contains(&unknown) {
